@@ -291,7 +291,9 @@ Fixpoint versym_table (le is64 : bool) (img : list Z) (vs_off vs_ent sym_off sym
 Definition versym_view (e : versym * dynsym) : enum_val * list Z :=
   (versym_report (versym_value (fst e)), st_str (snd e)).
 
-(* section [n] is a version-symbol section over a symbol table of exactly [entries] symbols *)
+(* section [n] is a version-symbol section of exactly [entries] half-words; its symbol table holds a
+   whole number of symbols, at least that many (linkers emit exactly that many; symbols beyond the
+   version table are unconstrained and simply have no version entry) *)
 Definition versym_section_wf (le is64 : bool) (img : list Z) (shdrs : list shdr) (n : nat)
            (entries : list (versym * dynsym)) : bool :=
   match linked shdrs n SHT_GNU_versym [SHT_SYMTAB; SHT_DYNSYM] with
@@ -302,7 +304,8 @@ Definition versym_section_wf (le is64 : bool) (img : list Z) (shdrs : list shdr)
       | Some st =>
           (0 <=? sh_link sy) && (sh_type st =? SHT_STRTAB)
           && (0 <? sh_entsize h) && (sh_size h =? zlen entries * sh_entsize h)
-          && (0 <? sh_entsize sy) && (sh_size sy =? zlen entries * sh_entsize sy)
+          && (0 <? sh_entsize sy) && (sh_size sy mod sh_entsize sy =? 0)
+          && (zlen entries * sh_entsize sy <=? sh_size sy)
           && versym_table le is64 img (sh_offset h) (sh_entsize h) (sh_offset sy) (sh_entsize sy)
                           (sh_offset st) 0 entries
       end
